@@ -48,7 +48,7 @@ func init() {
 		}
 		for i, n := range ns {
 			var s1, s2 strings.Builder
-			shapeOf(n, &s1)
+			mShape(n, &s1)
 			back, perr := xsel.ReadXml(strings.NewReader(lines[i]))
 			if perr == nil {
 				shapeOf(back, &s2)
@@ -120,6 +120,8 @@ b --><a k="v&#10;w">t</a></r>`,
 	`<r><unclosed></r>`,
 	`<r xmlns="urn:u1"><a b="c"/><a>é</a></r>`,
 	``,
+	`<r xmlns:p="urn:u1"><a p:id="7" id="3" xml:lang="en">t</a><p:b p:k="v" k="w"><c p:z="1" xmlns:q="urn:u2" q:z="2"/></p:b></r>`,
+	`<r xmlns:p="urn:u1" xmlns:q="urn:u2"><a q:id="1" p:id="2">x</a><a id="0" xml:space="preserve"> y </a></r>`,
 }
 var cliHtmlDocs = []string{`<!DOCTYPE html><html><body><a id="1">x</a><p>y<a>z</a></p></body></html>`, `<html><body>no doctype</body></html>`, `<!DOCTYPE html><a>1<a>2`}
 var cliJsonDocs = []string{`{"a": 1, "b": [1, 2, {"a": "x"}]}`, `[{"a": true}, {"a": null}]`, `{"a": 1`, `"scalar"`, `{"a": "line\nbreak"}`}
@@ -257,8 +259,54 @@ func shapeOf(c store.Cursor, b *strings.Builder) {
 	}
 }
 
+// mShape: what the -m record of a node must parse back to. Attribute and namespace nodes have no XML serialisation of
+// their own; the command writes them as processing instructions <?attribute:[URI:]local value?> and <?namespace:prefix URI?>,
+// from which name and value must be recoverable.
+func mShape(c store.Cursor, b *strings.Builder) {
+	switch v := c.Node().(type) {
+	case node.Attribute:
+		t := "attribute:"
+		if v.Space() != "" {
+			t += v.Space() + ":"
+		}
+		fmt.Fprintf(b, "P%q%q", t+v.Local(), v.AttributeValue())
+	case node.Namespace:
+		fmt.Fprintf(b, "P%q%q", "namespace:"+v.Prefix(), v.NamespaceValue())
+	default:
+		shapeOf(c, b)
+	}
+}
+
+// piFormEncodable: encoding/xml refuses a processing instruction whose target is not an XML name or whose data contains "?>"
+func piFormEncodable(c store.Cursor) bool {
+	var target, val string
+	switch v := c.Node().(type) {
+	case node.Attribute:
+		target, val = v.Space()+":"+v.Local(), v.AttributeValue()
+	case node.Namespace:
+		target, val = v.Prefix(), v.NamespaceValue()
+	default:
+		return true
+	}
+	if strings.Contains(val, "?>") {
+		return false
+	}
+	for _, r := range target {
+		if r < 0x80 && !(r >= 'a' && r <= 'z' || r >= 'A' && r <= 'Z' || r >= '0' && r <= '9' || r == '.' || r == '_' || r == ':' || r == '-') {
+			return false
+		}
+	}
+	return true
+}
+
 // mergeText joins adjacent text in a shape (a re-parse merges text nodes that were siblings)
 func hasNewlineInCommentOrPI(c store.Cursor) bool {
+	switch v := c.Node().(type) {
+	case node.Attribute:
+		return strings.Contains(v.AttributeValue(), "\n") // printed in its PI form
+	case node.Namespace:
+		return strings.Contains(v.NamespaceValue(), "\n")
+	}
 	switch v := c.Node().(type) {
 	case node.Comment:
 		return strings.Contains(v.CommentValue(), "\n")
@@ -434,6 +482,16 @@ func famC20(rn *Runner) {
 			case xsel.NodeSet:
 				parts := []string{"(nodes"}
 				for _, x := range v {
+					if run.m && !piFormEncodable(x) {
+						// open known finding C20-m-pi-form-not-encodable: the command stops printing this file's records here
+						// and reports the encoder's error; the as-is expectation is the records before this node
+						if rn.St.Known == nil {
+							rn.St.Known = map[string]int{}
+						}
+						rn.St.Known["C20-m-pi-form-not-encodable"]++
+						wantDiag++
+						break
+					}
 					pp, _ := pathOf(x)
 					parts = append(parts, pp.Sx())
 					if run.m {
@@ -444,7 +502,7 @@ func famC20(rn *Runner) {
 					}
 				}
 				val = strings.Join(parts, " ") + ")"
-				if len(v) > 0 {
+				if len(parts) > 1 {
 					nOut++
 				}
 			case xsel.Number:
@@ -526,17 +584,9 @@ func famC20(rn *Runner) {
 					break
 				}
 				body := gotLines[i][len(prefix):]
-				switch v := c.Node().(type) {
-				case node.Attribute, node.Namespace:
-					if !strings.HasPrefix(body, "<?") {
-						bad = fmt.Sprintf("record %d: %q is not the PI form of an attribute/namespace node", i, body)
-					}
-					_ = v
-					continue
-				}
 				back, perr := xsel.ReadXml(strings.NewReader(body))
 				var s1, s2 strings.Builder
-				shapeOf(c, &s1)
+				mShape(c, &s1)
 				if perr == nil {
 					shapeOf(back, &s2)
 				}
@@ -641,6 +691,18 @@ func famC14(rn *Runner) {
 				exprs = append(exprs, g.NodeSet(2, 3))
 			}
 		}
+		// every axis selector from every node, so that each helper of the evaluator runs in several goroutines at once
+		for _, ax := range allAxes {
+			dos := &Stp{Axis: "descendant-or-self", Test: NodeTest{Kind: "node"}, Abbrev: true}
+			st := &Stp{Axis: ax, Test: NodeTest{Kind: pick(r, []string{"node", "any"})}}
+			exprs = append(exprs, &EPath{Abs: true, Steps: []*Stp{dos, st}})
+			if r.Chance(1, 2) {
+				exprs = append(exprs, call("count", &EPath{Abs: true, Steps: []*Stp{dos, {Axis: "attribute", Test: NodeTest{Kind: "any"}, Abbrev: true}, st}}))
+			}
+		}
+		exprs = append(exprs, call("string", &EPath{Abs: true}), call("sum", &EPath{Abs: true, Steps: []*Stp{{Axis: "descendant", Test: NodeTest{Kind: "text"}}}}),
+			&EPath{Abs: true, Steps: []*Stp{{Axis: "descendant", Test: NodeTest{Kind: "any"}, Preds: []Expr{call("lang", lit("en"))}}}},
+			call("translate", call("normalize-space", &EPath{Abs: true}), lit("abc"), lit("AB")))
 		type job struct {
 			text   string
 			gr     *xsel.Grammar
